@@ -220,8 +220,104 @@ def gen_enums():
     return '\n'.join(out) + '\n', tables, stables
 
 
+# --------------------------------------------------------------------------------------------------
+# vector parameters, constants
+# --------------------------------------------------------------------------------------------------
+
+def gen_vectors():
+    out = ['/- GENERATED by tools/extract.py from the live cryptoparser code. Do not edit. -/',
+           'namespace Cp.Gen', '',
+           '/-- Parameters of a concrete `ArrayBase` subclass as returned by the live `get_param()`:',
+           '`numSize` is `item_num_size` as the code computes it (with floating-point `math.log`);',
+           '`itemSize` is 0 when items are not fixed-width numerics. -/',
+           'structure VecP where',
+           '  name : String',
+           '  kind : String',
+           '  min : Nat',
+           '  max : Nat',
+           '  numSize : Nat',
+           '  itemSize : Nat',
+           '  itemClass : String',
+           '  fallbackClass : String',
+           '']
+    names = []
+    for cls in all_subclasses(cpbase.ArrayBase):
+        if inspect.isabstract(cls):
+            continue
+        try:
+            param = cls.get_param()
+        except Exception:  # pylint: disable=broad-except
+            continue
+        kinds = [b.__name__ for b in cls.__mro__
+                 if b.__module__ == 'cryptoparser.common.base' and b.__name__ not in (
+                     'ArrayBase', 'ParsableBase', 'ParsableBaseNoABC', 'Serializable')]
+        if cls.__name__ in names:
+            continue
+        names.append(cls.__name__)
+        out.append('/-- `{}.{}` -/'.format(cls.__module__, cls.__name__))
+        out.append('def vec_{n} : VecP :=\n  {{ name := {q}, kind := {k}, min := {mi}, max := {ma}, numSize := {ns}, itemSize := {isz},\n'
+                   '    itemClass := {ic}, fallbackClass := {fc} }}'.format(
+                       n=cls.__name__, q=lean_str(cls.__name__), k=lean_str(kinds[0] if kinds else ''),
+                       mi=param.min_byte_num, ma=param.max_byte_num, ns=param.item_num_size,
+                       isz=getattr(param, 'item_size', None) or 0,
+                       ic=lean_str(getattr(getattr(param, 'item_class', None), '__name__', '') or ''),
+                       fc=lean_str(getattr(getattr(param, 'fallback_class', None), '__name__', '') or '')))
+        out.append('')
+    out.append('def vecParams : List VecP :=\n  {}'.format(lean_list(('vec_' + n for n in names), 4)))
+    out.append('')
+    out.append('end Cp.Gen')
+    return '\n'.join(out) + '\n', names
+
+
+def gen_consts():
+    """Class-level constants the parsers branch on."""
+    from cryptoparser.tls import record as tlsrecord, subprotocol as tlssub, extension as tlsext
+    out = ['/- GENERATED by tools/extract.py from the live cryptoparser code. Do not edit. -/',
+           'namespace Cp.Gen', '']
+    consts = [
+        ('TlsRecord_HEADER_SIZE', tlsrecord.TlsRecord.HEADER_SIZE),
+        ('TlsAlertMessage_SIZE', tlssub.TlsAlertMessage._SIZE),  # pylint: disable=protected-access
+        ('TlsHandshakeMessage_HEADER_SIZE', tlssub.TlsHandshakeMessage._HEADER_SIZE),  # pylint: disable=protected-access
+    ]
+    for name, value in consts:
+        out.append('def {} : Nat := {}'.format(name, int(value)))
+    out.append('')
+    # handshake type per message class, in the variant order of TlsHandshakeMessageVariant
+    variant = tlssub.TlsHandshakeMessageVariant._get_variant_types()  # pylint: disable=protected-access
+    out.append('/-- `TlsHandshakeMessageVariant._get_variant_types()`: (class name, handshake type code) in order -/')
+    out.append('def handshakeVariants : List (String × Nat) :=\n  {}'.format(lean_list(
+        ('({}, {})'.format(lean_str(c.__name__), int(c.get_handshake_type())) for c in variant), 3)))
+    out.append('')
+    for side, var in (('Client', tlsext.TlsExtensionVariantClient), ('Server', tlsext.TlsExtensionVariantServer)):
+        types = var._get_variant_types()  # pylint: disable=protected-access
+        rows = []
+        for c in types:
+            if c is tlsext.TlsExtensionUnparsed:
+                rows.append('("TlsExtensionUnparsed", 65536)')
+            else:
+                rows.append('({}, {})'.format(lean_str(c.__name__), c.get_extension_type().value.code))
+        out.append('/-- `TlsExtensionVariant{}._get_variant_types()`: (class name, extension type code) in the order tried;'.format(side))
+        out.append('`TlsExtensionUnparsed` (which accepts any type) is listed with the pseudo-code 65536 -/')
+        out.append('def extVariants{} : List (String × Nat) :=\n  {}'.format(side, lean_list(rows, 3)))
+        out.append('')
+    sp = tlssub.TlsSubprotocolMessageParser._get_subprotocol_parsers()  # pylint: disable=protected-access
+    out.append('def tlsSubprotocolParsers : List (Nat × String) :=\n  {}'.format(lean_list(
+        ('({}, {})'.format(int(k), lean_str(v.__name__)) for k, v in sorted(sp.items())), 3)))
+    sp = tlssub.SslSubprotocolMessageParser._get_subprotocol_parsers()  # pylint: disable=protected-access
+    out.append('def sslSubprotocolParsers : List (Nat × String) :=\n  {}'.format(lean_list(
+        ('({}, {})'.format(int(k), lean_str(v.__name__)) for k, v in sorted(sp.items())), 3)))
+    out.append('')
+    out.append('end Cp.Gen')
+    return '\n'.join(out) + '\n'
+
+
 def main():
     changed = []
+    vtext, vnames = gen_vectors()
+    if write_if_changed(os.path.join(GEN, 'Vectors.lean'), vtext):
+        changed.append('Vectors.lean')
+    if write_if_changed(os.path.join(GEN, 'Consts.lean'), gen_consts()):
+        changed.append('Consts.lean')
     text, tables, stables = gen_enums()
     if write_if_changed(os.path.join(GEN, 'Enums.lean'), text):
         changed.append('Enums.lean')
